@@ -42,6 +42,7 @@ package executor
 //@   ensures [commit-failed-no-effect] cm && cm.res0 != nil ==> k.db.kv == old(k.db.kv) && k.db.kvHas == old(k.db.kvHas)
 //@   ensures [reserved-protected] forall key :: Reserved(key) ==> k.db.kv[key] == old(k.db.kv[key]) && k.db.kvHas[key] == old(k.db.kvHas[key])
 //@   loop 1 invariant [staged-only-app-keys] bt && bt.res1 == nil && forall key :: bt.res0.pendHas[key] ==> !Reserved(key)
+//@   loop 1 invariant [nothing-deleted] forall key :: !bt.res0.pendDel[key]
 //@   loop 1 invariant [nothing-written-yet] cm.count == 0 && k.db.kv == old(k.db.kv) && k.db.kvHas == old(k.db.kvHas)
 //@   loop 1 invariant [every-tx-staged] rangeindex >= -1 && rangeindex < len(txs) && bt.res0.count == rangeindex + 1 && forall j :: 0 <= j && j <= rangeindex ==> bt.res0.pendHas[TxKey(val(txs[j]))]
 //@   loop 1 invariant [last-write-staged] forall j :: 0 <= j && j <= rangeindex && (forall l :: j < l && l <= rangeindex ==> TxKey(val(txs[l])) != TxKey(val(txs[j]))) ==> bt.res0.pend[TxKey(val(txs[j]))] == TxVal(val(txs[j]))
